@@ -19,9 +19,16 @@ Control = tuple[str, str, str, str, str]
 
 def run_controls(run: Run, controls: Sequence[Control],
                  rules: Callable[[Run, Program], Any], tier: str,
-                 base_prog: Program | None = None) -> None:
+                 base_prog: Program | None = None,
+                 select: Callable[[str], Callable[[Run, Program], Any]] | None = None) -> None:
     from collections import Counter
 
+    if run.violations:
+        # the tree under analysis already violates a rule: report that; the both-ways test of the
+        # checker is only meaningful (and only attributable) on a tree that passes
+        run.controls.append({"control": "*", "fired": None,
+                             "detail": "skipped: the analysed tree has violations"})
+        return
     base_keys = Counter(v.key() for v in run.violations)
     skipped = 0
     for name, module, old, new, expect in controls:
@@ -38,7 +45,7 @@ def run_controls(run: Run, controls: Sequence[Control],
         detail = ""
         try:
             prog = Program(overrides={module: patched})
-            rules(scratch, prog)
+            (select(expect) if select is not None else rules)(scratch, prog)
             seen: Counter = Counter()
             new_v = []
             for v in scratch.violations:
